@@ -34,6 +34,10 @@ pub fn gen_spec(rng: &mut Rng, with_overrides: bool) -> (CmdSpec, BTreeMap<Strin
             if rng.chance(1, 5) {
                 a.defaults = vec!["dflt".into()];
             }
+            // an option may be given without a value (no missing-value default): present all the same
+            if rng.chance(1, 5) {
+                a.num_args = Some((0, 1));
+            }
             if rng.chance(1, 6) {
                 let var = format!("CLAPR_{}", i);
                 if rng.coin() {
@@ -379,7 +383,11 @@ pub fn case(seed: u64, st: &mut Stats) {
             for _ in 0..times {
                 argv.push(format!("--{}", a.long.as_ref().unwrap()).into());
                 if a.takes_values() {
-                    argv.push((*rng.pick(&["v1", "v2", "v3"])).into());
+                    if a.num_args == Some((0, 1)) && rng.coin() {
+                        st.count("argv.occurrence-without-value");
+                    } else {
+                        argv.push((*rng.pick(&["v1", "v2", "v3"])).into());
+                    }
                 }
             }
         }
